@@ -559,6 +559,116 @@ Section Columns.
   Qed.
 End Columns.
 
+(* ------------------------------------------------------------------ which names reach the column-name places *)
+
+Lemma is_gen_spec p u : is_gen p u = true <-> exists k, u = gen_name p k.
+Proof.
+  unfold is_gen. split.
+  - destruct (strip_prefix p u) as [ds|]; [|discriminate]. intro H. apply leqb_spec in H. eauto.
+  - intros [k ->]. unfold gen_name at 1.
+    assert (strip_prefix p (p ++ digits_of k) = Some (digits_of k)) as -> by (apply strip_prefix_spec; reflexivity).
+    rewrite digits_of_value. apply leqb_refl.
+Qed.
+
+Section Context.
+  Variable lower : str -> str.
+  Variable p : str.
+  Variable reserved : list str.
+  Hypothesis gen_stable : forall k, lower (gen_name p k) = gen_name p k.
+
+  Notation class_ok := (name_class_ok lower p reserved).
+  Notation genlike := (genlike lower p reserved).
+
+  Lemma class_ok_spec u : class_ok u = true <-> In (lower u) reserved \/ genlike u.
+  Proof.
+    unfold name_class_ok. split.
+    - intro H. destruct (mem_str (lower u) reserved) eqn:M; [left; apply mem_str_spec, M|].
+      cbn [orb] in H. right. split; [apply is_gen_spec, H | apply mem_str_false, M].
+    - intros [H|[G _]]; apply orb_true_iff; [left; apply mem_str_spec, H | right; apply is_gen_spec, G].
+  Qed.
+
+  Lemma col_user_names_incoming cols u : col_user_names cols u <-> In u (flat_map col_incoming cols).
+  Proof.
+    unfold col_user_names. rewrite in_flat_map. split.
+    - intros (d & b & Hin & Hor). exists (d, b). split; [exact Hin|]. unfold col_incoming. cbn [fst snd]. apply in_or_app.
+      destruct Hor as [->| ->]; [left | right]; left; reflexivity.
+    - intros ([d b] & Hin & Hu). exists d, b. split; [exact Hin|]. unfold col_incoming in Hu. cbn [fst snd] in Hu.
+      apply in_app_or in Hu as [Hu|Hu].
+      + destruct b as [b0|]; [|destruct Hu]. destruct Hu as [<-|[]]. left. reflexivity.
+      + destruct d as [|[nm|]|]; [destruct Hu | | destruct Hu | destruct Hu]. destruct Hu as [<-|[]]. right. reflexivity.
+  Qed.
+
+  (* the boolean hypothesis gives the hypothesis of split_names_ci_fresh *)
+  Lemma incoming_ok_spec cols : incoming_ok lower p reserved cols = true ->
+    forall u, col_user_names cols u -> In (lower u) reserved \/ genlike u.
+  Proof.
+    unfold incoming_ok. rewrite forallb_forall. intros H u Hu. apply class_ok_spec, H, col_user_names_incoming, Hu.
+  Qed.
+
+  Theorem split_names_ci_checked cols n l n' :
+    incoming_ok lower p reserved cols = true ->
+    split_names lower p reserved cols [] n = Some (l, n') ->
+    forall x y, In x (somes l) -> In y (somes l) -> genlike x -> x <> y -> lower x <> lower y.
+  Proof. intro H. exact (split_names_ci_fresh lower p reserved gen_stable cols n l n' (incoming_ok_spec cols H)). Qed.
+
+  (* the invariant of the context: every name it holds is a name of the RQ or a generated name *)
+  Definition ctx_ok (known : list str) : Prop := forall u, In u known -> class_ok u = true.
+
+  Lemma wf_incoming_ok known names : ctx_ok known -> forallb (fun u => mem_str u known) names = true ->
+    forallb class_ok names = true.
+  Proof.
+    intros K W. rewrite forallb_forall in *. intros u Hu. apply K, mem_str_spec, W, Hu.
+  Qed.
+
+  Lemma run_op_invariant known n op known' n' splits :
+    ctx_ok known -> run_op lower p reserved known n op = Some (known', n', splits) ->
+    ctx_ok known' /\
+    forall l, In l splits -> forall x y, In x (somes l) -> In y (somes l) -> genlike x -> x <> y -> lower x <> lower y.
+  Proof.
+    intros K H. unfold run_op in H. destruct (op_wf lower reserved known op) eqn:W; [|discriminate].
+    destruct op as [names|d b|cols|]; cbn [op_wf] in W.
+    - injection H as <- <- <-. split; [|intros l []].
+      intros u Hu. apply in_app_or in Hu as [Hu|Hu]; [|exact (K u Hu)].
+      rewrite forallb_forall in W. apply class_ok_spec. left. apply mem_str_spec, W, Hu.
+    - destruct (ensure_column_name lower p reserved d b n) as [[[x|] n1]|] eqn:En; [| |discriminate];
+        injection H as <- <- <-; (split; [|intros l []]); [|exact K].
+      intros u [<-|Hu]; [|exact (K u Hu)].
+      destruct (ensure_column_name_origin lower p reserved _ _ _ _ _ En) as [(_ & Hor)|(_ & G & _)].
+      + pose proof (wf_incoming_ok known _ K W) as C. rewrite forallb_forall in C. apply C.
+        unfold col_incoming. cbn [fst snd]. apply in_or_app. destruct Hor as [->| ->]; [left | right]; left; reflexivity.
+      + apply class_ok_spec. right. exact G.
+    - destruct (split_names lower p reserved cols [] n) as [[l n1]|] eqn:A; [|discriminate].
+      injection H as <- <- <-.
+      pose proof (wf_incoming_ok known _ K W) as C. split.
+      + intros u Hu. apply in_app_or in Hu as [Hu|Hu]; [|exact (K u Hu)].
+        destruct (split_names_origin lower p reserved _ _ _ _ _ A u Hu) as [G|U].
+        * apply class_ok_spec. right. exact G.
+        * rewrite forallb_forall in C. apply C, col_user_names_incoming, U.
+      + intros l0 [<-|[]]. exact (split_names_ci_checked cols n l n1 C A).
+    - destruct (select_item_alias lower p reserved known n) as [[x n1]|] eqn:A; [|discriminate].
+      injection H as <- <- <-. split; [|intros l []].
+      intros u [<-|Hu]; [|exact (K u Hu)].
+      destruct (select_item_alias_fresh lower p reserved gen_stable known n) as (nm & n2 & A2 & _ & G & _).
+      rewrite A in A2. injection A2 as <- _. apply class_ok_spec. right. exact G.
+  Qed.
+
+  (* for EVERY sequence of operations that starts from a context of RQ names / generated names: the invariant is kept
+     and in every anchor_split of the sequence a generated name differs case-insensitively from every other name *)
+  Theorem run_ops_invariant : forall ops known n known' n' splits,
+    ctx_ok known -> run_ops lower p reserved known n ops = Some (known', n', splits) ->
+    ctx_ok known' /\
+    forall l, In l splits -> forall x y, In x (somes l) -> In y (somes l) -> genlike x -> x <> y -> lower x <> lower y.
+  Proof.
+    induction ops as [|op r IH]; intros known n known' n' splits K H; cbn [run_ops] in H.
+    - injection H as <- <- <-. split; [exact K | intros l []].
+    - destruct (run_op lower p reserved known n op) as [[[k1 n1] s1]|] eqn:O; [|discriminate].
+      destruct (run_ops lower p reserved k1 n1 r) as [[[k2 n2] s2]|] eqn:R; [|discriminate].
+      injection H as <- <- <-.
+      destruct (run_op_invariant _ _ _ _ _ _ K O) as [K1 S1]. destruct (IH _ _ _ _ _ K1 R) as [K2 S2].
+      split; [exact K2|]. intros l Hl. apply in_app_or in Hl as [Hl|Hl]; [exact (S1 l Hl) | exact (S2 l Hl)].
+  Qed.
+End Context.
+
 (* the statement about the source as it is: full strength with the repair, the refutation without *)
 Lemma column_ci_status p (repaired : bool) (Refuted : Prop) : Refuted ->
   if repaired
